@@ -116,3 +116,6 @@
 (define-fun mirrorBB ((x BB)) BB
   (concat ((_ extract 7 0) x) ((_ extract 15 8) x) ((_ extract 23 16) x) ((_ extract 31 24) x)
           ((_ extract 39 32) x) ((_ extract 47 40) x) ((_ extract 55 48) x) ((_ extract 63 56) x)))
+
+; index of the lowest set bit as a square (64 if empty)
+(define-fun tz8 ((x BB)) Sq ((_ extract 7 0) (tz64 x)))
